@@ -132,6 +132,45 @@ pub fn op_law<T: OrdElem>(cx: &mut Ctx, scn: &Scenario, w: &mut World<T>, op: &O
                 }
                 prev = Some((q, r));
             }
+            // ... and through the per-axis bulk entry point over all sibling lanes at once
+            if let Some((ax, _)) = op.lane {
+                if op.form >= 2 && ax < w.idx.ndim() {
+                    let mut w3 = World::<T>::build(scn);
+                    restore(&mut w3, &before);
+                    let pol = derive(&op.alt, 2000);
+                    let lanes = w3.lanes(ax);
+                    let total: usize = lanes.iter().map(|l| l.len()).sum();
+                    let (o, sx) = with_policy(&pol, budget(total) + 64 * lanes.len() * (op.qs.len() + 1), || call_quantile(w3.view_mut(), scn.static_dim, "quantiles_axis", None, ax, &op.qs, s, op.form));
+                    cx.note_draws(pol.kind, &sx.draws);
+                    if let Outcome::Done(Ok(rb)) = o {
+                        if rb.shape().get(ax).copied() == Some(op.qs.len()) {
+                            for (li, rl) in rb.lanes(ndarray::Axis(ax)).into_iter().enumerate() {
+                                let lv: Vec<T> = lanes[li].iter().map(|&c| T::from_raw(before[c])).collect();
+                                let (lmin, lmax) = (lv.iter().min().unwrap().clone(), lv.iter().max().unwrap().clone());
+                                for j in 0..rl.len() {
+                                    let (q, r) = (op.qs[j], &rl[j]);
+                                    let bad_bounds = !(le_tol(lmin.num(), r.num(), tol) && le_tol(r.num(), lmax.num(), tol));
+                                    let bad_ends = (q == 0.0 && !r.num().num_eq(lmin.num())) || (q == 1.0 && !r.num().num_eq(lmax.num()));
+                                    let bad_mono = j > 0 && op.qs[j - 1] <= q && !le_tol(rl[j - 1].num(), r.num(), tol);
+                                    if bad_bounds || bad_ends || bad_mono {
+                                        cx.fail(
+                                            if bad_mono { "law-monotone" } else if bad_ends { "law-q0-min" } else { "law-bounds" },
+                                            format!("{} per-axis bulk call (axis {}, {} lanes, list form {}): lane {} gives {:?} for qs {:?}; lane min {:?} max {:?}", s.name(), ax, lanes.len(), op.form, li, rl.to_vec(), op.qs, lmin, lmax),
+                                        );
+                                        return;
+                                    }
+                                }
+                            }
+                        } else {
+                            cx.fail("law-call-failed", format!("law_monotone: per-axis bulk call returned shape {:?}", rb.shape()));
+                            return;
+                        }
+                    } else {
+                        cx.fail("law-call-failed", format!("law_monotone: per-axis bulk quantiles_axis_mut({:?}, {}) failed", op.qs, s.name()));
+                        return;
+                    }
+                }
+            }
             // the same laws through the bulk entry point, with the q list passed in the op's form
             if op.form != 0 {
                 let mut w2 = World::<T>::build(scn);
